@@ -12,7 +12,7 @@ use std::rc::Rc;
 pub const DEF: PropDef = PropDef {
     id: "C16",
     level: "exploration",
-    rule: "programs built directly as AST values (public fields): the whole canonical corpus of the reference grammar (every statement kind with every slot filled from 14 expression shapes, operator chains, lists, calls, subscripts), every block-nesting shape up to 5 (thorough 7) nodes, plus trees the parser never produces (empty else / then / loop / function blocks, functions with 0..3 parameters, poetic literals with word / suffix / dot elements in rock and assignment); for each program every failing position k = 0..n-1 of the leaf callbacks plus 'never'; a recording visitor that overrides only the eight leaf callbacks runs through ExprVisitorRunner, its Output is the free monoid (event list); expected = reference traversal of the tree in field order; checks: returned list = side-effect log = expected; failing at k returns Err(k) unchanged with log = expected[..=k]; second family: 15 probe visitors, each overriding the eight leaves plus exactly ONE interior callback of VisitExpr (assignment lhs/rhs, poetic rhs, poetic literal, push rhs, pop expression, expression list, expression, primary, binary, unary, subscript, call, identifier, variable name), for every program x every failing entry of that callback plus never: every typed node of that kind must be presented exactly once, in order relative to the leaves (typed reference walk over the public AST, cross-checked against the RAst walk); third family: an Output whose Default is the visible one-element list [Start]: between consecutive leaves the result must contain at least as many Starts as pure list folds (program blocks, block statements, expression list, poetic literal, parameters) begin there; fourth family: an Output that is the free magma (combine(a, b) = (a b)): the result must be what folding every node's children left to right gives — ((d? c1) c2) .. cn with the default optional at the start and absent parts folded in as a default or left out; non-trivial = programs with at least 2 leaf events / at least one entry of the probed kind; distinct = distinct (program, k)",
+    rule: "programs built directly as AST values (public fields): the whole canonical corpus of the reference grammar (every statement kind with every slot filled from 14 expression shapes, operator chains, lists, calls, subscripts), every block-nesting shape up to 5 (thorough 7) nodes, plus trees the parser never produces (empty else / then / loop / function blocks, functions with 0..3 parameters, poetic literals with word / suffix / dot elements in rock and assignment); for each program every failing position k = 0..n-1 of the leaf callbacks plus 'never'; a recording visitor that overrides only the eight leaf callbacks runs through ExprVisitorRunner, its Output is the free monoid (event list); expected = reference traversal of the tree in field order; checks: returned list = side-effect log = expected; failing at k returns Err(k) unchanged with log = expected[..=k]; second family: 15 probe visitors, each overriding the eight leaves plus exactly ONE interior callback of VisitExpr (assignment lhs/rhs, poetic rhs, poetic literal, push rhs, pop expression, expression list, expression, primary, binary, unary, subscript, call, identifier, variable name), for every program x every failing entry of that callback plus never: every typed node of that kind must be presented exactly once, in order relative to the leaves (typed reference walk over the public AST, cross-checked against the RAst walk); third family: an Output whose Default is the visible one-element list [Start]: between consecutive leaves the result must contain at least as many Starts as pure list folds (program blocks, block statements, expression list, poetic literal, parameters) begin there; fourth family: an Output that is the free magma (combine(a, b) = (a b)): the result must be what folding every node's children left to right gives — ((d? c1) c2) .. cn with the default optional at the start and absent parts folded in as a default or left out; fifth family: a statement-level visitor (VisitProgram itself, no runner) that overrides only the callbacks of the 15 statement kinds without blocks and reaches every block through the default traversal, for every program x every failing statement plus never: the statements must be presented once each in source order, a failure returned unchanged with nothing visited after it; non-trivial = programs with at least 2 leaf events / at least one entry of the probed kind; distinct = distinct (program, k)",
     assumptions: &["the reference traversal (children in field order) is written against the RAst mirror of the public AST", "mutation operator and rounding direction callbacks belong to VisitProgram, not to the expression visitor, and are not observable through the runner"],
     build,
     exhaustive: true,
@@ -1021,6 +1021,34 @@ impl C16 {
         }
     }
 
+    fn statement_case(&self, idx: u64, ctx: &mut Ctx) {
+        let prog = &self.progs[idx as usize];
+        let ast = to_ast::program(prog);
+        let mut want = Vec::new();
+        statement_tags(prog, &mut want);
+        ctx.nontrivial();
+        ctx.observe_str(&want.len().to_string());
+        // no failure, then a failure at every statement in turn
+        for fail_at in std::iter::once(None).chain((0..want.len()).map(Some)) {
+            let mut probe = StmtProbe { seen: 0, fail_at };
+            let got = probe.visit_program(&ast);
+            let expected: Result<Tags, usize> = match fail_at {
+                None => Ok(Tags(want.clone())),
+                Some(k) => Err(k),
+            };
+            let seen_want = fail_at.map_or(want.len(), |k| k + 1);
+            if got != expected || probe.seen != seen_want {
+                ctx.violation(
+                    "default-traversal",
+                    format!(
+                        "a statement visitor on the default traversal (failing at {:?}) returned {:?} after {} callbacks, expected {:?} after {} — program {:?}",
+                        fail_at, got, probe.seen, expected, seen_want, prog
+                    ),
+                );
+                return;
+            }
+        }
+    }
     fn fold_case(&self, idx: u64, ctx: &mut Ctx) {
         let prog = &self.progs[idx as usize];
         let ast = to_ast::program(prog);
@@ -1117,6 +1145,7 @@ impl Check for C16 {
             ("program x interior callback x failing entry".into(), *self.probe_prefix.last().unwrap()),
             ("program folded into an output with a visible default".into(), self.progs.len() as u64),
             ("program folded into an output that shows the grouping".into(), self.progs.len() as u64),
+            ("program walked by a statement visitor on the default traversal x failing statement".into(), self.progs.len() as u64),
         ]
     }
     fn describe(&self, fam: usize, idx: u64) -> Value {
@@ -1132,7 +1161,8 @@ impl Check for C16 {
                 json!({"text": format!("{:?} override=visit_{} failing_entry={}", self.progs[p], PROBES[k], j)})
             }
             2 => json!({"text": format!("{:?} output=marked", self.progs[idx as usize])}),
-            _ => json!({"text": format!("{:?} output=grouping", self.progs[idx as usize])}),
+            3 => json!({"text": format!("{:?} output=grouping", self.progs[idx as usize])}),
+            _ => json!({"text": format!("{:?} statement-visitor", self.progs[idx as usize])}),
         }
     }
     fn run_case(&self, fam: usize, idx: u64, ctx: &mut Ctx) {
@@ -1140,11 +1170,121 @@ impl Check for C16 {
             0 => self.leaf_case(idx, ctx),
             1 => self.probe_case(idx, ctx),
             2 => self.fold_case(idx, ctx),
-            _ => self.grouping_case(idx, ctx),
+            3 => self.grouping_case(idx, ctx),
+            _ => self.statement_case(idx, ctx),
         }
     }
     fn static_coverage(&self) -> Value {
         json!({"programs": self.progs.len(), "interior_callbacks_probed": PROBES})
+    }
+}
+
+
+// ---------------------------------------------------------------- statement-level visitor on the default traversal
+// Overrides only the callbacks of statements without blocks; every block (then / else, while, until,
+// function body, the program's block list) is reached through the crate's VisitProgram defaults.
+#[derive(Default, Debug, PartialEq, Clone)]
+pub struct Tags(pub Vec<&'static str>);
+impl Combine for Tags {
+    fn combine(mut self, other: Self) -> Self {
+        self.0.extend(other.0);
+        self
+    }
+}
+pub struct StmtProbe {
+    pub seen: usize,
+    pub fail_at: Option<usize>,
+}
+impl StmtProbe {
+    fn tag(&mut self, t: &'static str) -> Result<Tags, usize> {
+        let k = self.seen;
+        self.seen += 1;
+        if self.fail_at == Some(k) {
+            Err(k)
+        } else {
+            Ok(Tags(vec![t]))
+        }
+    }
+}
+impl Visit for StmtProbe {
+    type Output = Tags;
+    type Error = usize;
+}
+impl VisitProgram for StmtProbe {
+    fn visit_assignment(&mut self, _: &a::Assignment) -> visit::Result<Self> {
+        self.tag("assign")
+    }
+    fn visit_poetic_number_assignment(&mut self, _: &a::PoeticNumberAssignment) -> visit::Result<Self> {
+        self.tag("poetic-number")
+    }
+    fn visit_poetic_string_assignment(&mut self, _: &a::PoeticStringAssignment) -> visit::Result<Self> {
+        self.tag("poetic-string")
+    }
+    fn visit_inc(&mut self, _: &a::Inc) -> visit::Result<Self> {
+        self.tag("inc")
+    }
+    fn visit_dec(&mut self, _: &a::Dec) -> visit::Result<Self> {
+        self.tag("dec")
+    }
+    fn visit_input(&mut self, _: &a::Input) -> visit::Result<Self> {
+        self.tag("input")
+    }
+    fn visit_output(&mut self, _: &a::Output) -> visit::Result<Self> {
+        self.tag("output")
+    }
+    fn visit_mutation_operator(&mut self, _: a::MutationOperator) -> visit::Result<Self> {
+        self.tag("mutation")
+    }
+    fn visit_rounding_direction(&mut self, _: a::RoundingDirection) -> visit::Result<Self> {
+        self.tag("rounding")
+    }
+    fn visit_continue(&mut self, _: &a::Continue) -> visit::Result<Self> {
+        self.tag("continue")
+    }
+    fn visit_break(&mut self, _: &a::Break) -> visit::Result<Self> {
+        self.tag("break")
+    }
+    fn visit_array_push(&mut self, _: &a::ArrayPush) -> visit::Result<Self> {
+        self.tag("push")
+    }
+    fn visit_array_pop(&mut self, _: &a::ArrayPop) -> visit::Result<Self> {
+        self.tag("pop")
+    }
+    fn visit_return(&mut self, _: &a::Return) -> visit::Result<Self> {
+        self.tag("return")
+    }
+    fn visit_function_call_statement(&mut self, _: &a::FunctionCall) -> visit::Result<Self> {
+        self.tag("call")
+    }
+}
+
+/// the statements without blocks, in source order, every block entered
+fn statement_tags(prog: &[Stmt], out: &mut Vec<&'static str>) {
+    for s in prog {
+        match s {
+            Stmt::Assign { .. } => out.push("assign"),
+            Stmt::PoeticNum { .. } => out.push("poetic-number"),
+            Stmt::PoeticStr { .. } => out.push("poetic-string"),
+            Stmt::If { then, els, .. } => {
+                statement_tags(then, out);
+                if let Some(e) = els {
+                    statement_tags(e, out);
+                }
+            }
+            Stmt::While { body, .. } | Stmt::Until { body, .. } | Stmt::Function { body, .. } => statement_tags(body, out),
+            Stmt::Inc { .. } => out.push("inc"),
+            Stmt::Dec { .. } => out.push("dec"),
+            Stmt::Input { .. } => out.push("input"),
+            Stmt::Output(_) => out.push("output"),
+            Stmt::Mutation { .. } => out.push("mutation"),
+            Stmt::Round { .. } => out.push("rounding"),
+            Stmt::Continue => out.push("continue"),
+            Stmt::Break => out.push("break"),
+            Stmt::Push { .. } => out.push("push"),
+            Stmt::Pop { .. } => out.push("pop"),
+            Stmt::Return(_) => out.push("return"),
+            Stmt::Call(..) => out.push("call"),
+        }
     }
 }
 
